@@ -192,6 +192,9 @@ pub enum SAct {
     CreateStream { tx: f64 },
     Publish { sid: u32, key: String, mode: String },
     PublishMalformed { sid: u32, shape: u8 },
+    /// well-formed publish / play with further arguments behind the ones the session reads
+    PublishExtra { sid: u32, key: String, mode: String },
+    PlayExtra { sid: u32, key: String },
     Play { sid: u32, key: String },
     PlayMalformed { sid: u32, shape: u8 },
     CloseStream { sid: u32 },
@@ -219,8 +222,21 @@ pub enum SAct {
     Clock { ms: u64, backwards: bool },
 }
 
+/// Media payload for a tag: a position-dependent pattern whose first two bytes cycle (with the tag and the
+/// length) through the values FLV tag bodies start with - key/inter/disposable frame + codec, AAC/AVC sequence
+/// header and end-of-sequence markers, 0x00 and 0xFF - so that a session that looks into media bytes is noticed.
 pub fn media_payload(tag: u32, len: usize) -> Vec<u8> {
-    crate::util::pattern(tag ^ 0xA5A5, len)
+    let mut v = crate::util::pattern(tag ^ 0xA5A5, len);
+    const FIRST: [u8; 10] = [0x17, 0x27, 0xAF, 0x00, 0xFF, 0x12, 0x37, 0x2F, 0x57, 0x1C];
+    const SECOND: [u8; 4] = [0x00, 0x01, 0x02, 0xFF];
+    let k = (tag as usize).wrapping_mul(7).wrapping_add(len.wrapping_mul(3));
+    if len >= 1 {
+        v[0] = FIRST[k % FIRST.len()];
+    }
+    if len >= 2 {
+        v[1] = SECOND[(k / FIRST.len()) % SECOND.len()];
+    }
+    v
 }
 
 impl ServerH {
@@ -250,6 +266,8 @@ impl ServerH {
             },
             SAct::CreateStream { tx } => wire(ser, 0, 0, &command("createStream", *tx, V::Null, vec![])),
             SAct::Publish { sid, key, mode } => wire(ser, *sid, 0, &command("publish", 0.0, V::Null, vec![s(key), s(mode)])),
+            SAct::PublishExtra { sid, key, mode } => wire(ser, *sid, 0, &command("publish", 0.0, V::Null, vec![s(key), s(mode), num(0.0), s("record")])),
+            SAct::PlayExtra { sid, key } => wire(ser, *sid, 0, &command("play", 0.0, V::Null, vec![s(key), num(-2.0), num(-1.0), V::Bool(true), s("x")])),
             SAct::PublishMalformed { sid, shape } => match shape {
                 0 => wire(ser, *sid, 0, &command("publish", 0.0, V::Null, vec![])),
                 1 => wire(ser, *sid, 0, &command("publish", 0.0, V::Null, vec![s("k1")])),
